@@ -894,6 +894,276 @@ def run_multi_cases(ctx: Ctx, n_random: int, lines, metas, obss):
             obss.append(o2)
 
 
+# --------------------------------------------------------------------------- pairing administration while others are mid-request
+
+X_STATES = ["idle", "after-request", "mid-headers", "mid-body", "chunked-mid-body", "response-pending", "pending+more"]
+ADMIN_OPS = ["remove-user", "remove-unknown", "add", "list"]
+
+
+def _x_script(world: base.World, state: str, cut: Optional[int] = None) -> Tuple[List[bytes], List[bytes]]:
+    """(bytes delivered BEFORE the admin's request, bytes delivered after it) for a session of
+    controller B that is in the given h11 state when the admin's request arrives."""
+    aid, on_iid = world.writable()
+    serial = world.char_ids()[3]
+    get = b"GET /characteristics?id=%d.%d HTTP/1.1\r\nHost: hap.local\r\n\r\n" % serial
+    body = json.dumps({"characteristics": [{"aid": aid, "iid": on_iid, "ev": True}]}).encode()
+    put = b"PUT /characteristics HTTP/1.1\r\nHost: hap.local\r\nContent-Length: %d\r\n\r\n" % len(body) + body
+    hdr = put.index(b"\r\n\r\n") + 4
+    if state == "idle":
+        return [], [get]
+    if state == "after-request":
+        return [get], [get]
+    if state == "mid-headers":
+        c = cut if cut is not None else 20
+        c = max(1, min(c, hdr - 1))
+        return [put[:c]], [put[c:]]
+    if state == "mid-body":
+        c = hdr + (cut if cut is not None else 10) % max(1, len(body) - 1)
+        return [put[:c]], [put[c:]]
+    if state == "chunked-mid-body":
+        ch = (b"PUT /characteristics HTTP/1.1\r\nHost: hap.local\r\nTransfer-Encoding: chunked\r\n\r\n"
+              + b"%x\r\n" % 10 + body[:10] + b"\r\n")
+        rest = b"%x\r\n" % (len(body) - 10) + body[10:] + b"\r\n0\r\n\r\n"
+        return [ch], [rest]
+    res = httpc.http_request(b"POST", b"/resource", base._snapshot_body(world, "same"))
+    if state == "response-pending":
+        return [res], []
+    if state == "pending+more":
+        return [res, put[:30]], [put[30:]]
+    raise ValueError(state)
+
+
+def run_admin(spec: Dict[str, Any], only: Optional[int] = None, x_pre_only: bool = False, record: bool = True) -> Dict[str, Any]:
+    """Slot 0 = a verified admin (controller A) that sends ONE pairings request; slots 1.. = other
+    connections (sessions of controller B, an unverified peer, a second session of A) whose `pre`
+    bytes arrive before that request and whose `post` bytes after it. `only` = run one slot alone
+    (the solo reference); `x_pre_only` = stop that slot after its `pre` bytes."""
+    world = base.World(True, spec["shape"], virtual=True, gated=True)
+    try:
+        roles = spec["conns"]
+        conns: Dict[int, base.Conn] = {}
+        rec: Dict[int, Any] = {}
+        for k, c in enumerate(roles):
+            if only is not None and k != only:
+                continue
+            peer = PEERS[k] if k < len(PEERS) else ("10.2.0.%d" % k, 7000 + k)
+            if c["role"] in ("admin", "admin2"):
+                conn = base._verified_conn(world, peer, base.CANARY_CTRL_ID)
+            elif c["role"] == "user":
+                conn = base._verified_conn(world, peer, base.CANARY_USER_ID)
+            else:
+                conn = base.Conn(world, peer)
+            conns[k] = conn
+            rec[k] = instrument(conn, world) if record else ([], [], [])
+        escaped: Dict[int, List[Tuple[str, str]]] = {k: [] for k in conns}
+        hung: List[str] = []
+        closed_at_op: Dict[int, bool] = {}
+
+        def feed(k, ch):
+            c = conns[k]
+            if c.t.closed or escaped[k]:
+                return
+            calls, _d, cbs = rec[k]
+            cb = {"cb": "data", "data": hx(ch)}
+            cbs.append(cb)
+            exc, h = base.guarded(c.p.data_received, ch)
+            if exc:
+                cb["escaped"] = exc
+                escaped[k].append(("data_received", exc))
+            if h:
+                hung.append(f"data_received of connection {k}")
+            calls.append(["cb_end"])
+            cb["writes"] = sum(1 for o in c.t.ops if o[0] == "write")
+            cb["closing"] = c.t.closed
+            world.drain()
+
+        for k in sorted(conns):
+            if k != 0:
+                for ch in roles[k]["pre"]:
+                    feed(k, bytes.fromhex(ch))
+        if any(roles[k].get("state", "").startswith(("response-pending", "pending")) for k in conns):
+            for _ in range(200):
+                if world.snapshot_calls:
+                    break
+                time.sleep(0.005)
+                world.spin(2)
+        closed_at_op = {k: conns[k].t.closed for k in conns}
+        at_op = {}
+        for k, c in conns.items():
+            w_ = b"".join(o[1] for o in c.t.ops if o[0] == "write")
+            at_op[k] = [(r.status, r.body) for r in httpc.parse_responses(w_, [b"POST"] * 20, eof=False)[0]] if b"EVENT/1.0" not in w_ else []
+        if 0 in conns:
+            feed(0, bytes.fromhex(spec["op_request"]))
+        closed_after_op = {k: conns[k].t.closed for k in conns}
+        for k in sorted(conns):
+            if k != 0 and not (x_pre_only and k == only):
+                for ch in roles[k]["post"]:
+                    feed(k, bytes.fromhex(ch))
+        world.open_gate()
+        world.drain()
+        world.advance(1.0)
+        per: Dict[int, Dict[str, Any]] = {}
+        for k, c in conns.items():
+            written = b"".join(o[1] for o in c.t.ops if o[0] == "write")
+            n_events = written.count(b"EVENT/1.0")
+            resps, trailing = httpc.parse_responses(written, [b"POST"] * 20, eof=c.t.closed) if not n_events else ([], "")
+            per[k] = {"responses": [(r.status, r.body) for r in resps], "trailing": trailing, "closed": c.t.closed,
+                      "closed_by_op": closed_after_op[k] and not closed_at_op[k], "responses_at_op": at_op[k],
+                      "registered": c.p in world.connections.values(), "escaped": escaped[k]}
+        st = world.digest()
+        pairings = {k: st[k] for k in ("paired_clients", "client_properties", "uuid_to_bytes")}
+        for k, c in conns.items():
+            calls, _d, cbs = rec[k]
+            cbs.append({"cb": "lost"})
+            exc, h = base.guarded(c.p.connection_lost, None)
+            if exc:
+                cbs[-1]["escaped"] = exc
+                escaped[k].append(("connection_lost", exc))
+            calls.append(["cb_end"])
+            cbs[-1]["writes"] = sum(1 for o in c.t.ops if o[0] == "write")
+            cbs[-1]["closing"] = c.t.closed
+            world.drain()
+        for k, c in conns.items():
+            calls, disp, cbs = rec[k]
+            per[k]["registered_after_lost"] = c.p in world.connections.values()
+            per[k]["final_ops"] = [[o[0]] + ([hx(o[1])] if o[0] == "write" else []) for o in c.t.ops]
+            per[k]["transcript"] = {"h11": calls, "disp": disp, "callbacks": cbs}
+        return {"per": per, "pairings": json.loads(json.dumps(pairings)), "finish_pair": world.finish_pair_calls,
+                "loop_errors": list(world.loop_errors), "hung": hung + ([world.hung] if world.hung else [])}
+    finally:
+        world.close()
+
+
+def admin_problems(spec: Dict[str, Any], out: Dict[str, Any]) -> List[Tuple[str, str]]:
+    """Each connection gets what it gets alone — with exactly one cross-connection effect allowed:
+    once the admin's removal of controller B has been acknowledged, B's sessions are closed (and get
+    nothing more). Pairings and advertisement refreshes are those of the admin's request alone."""
+    problems: List[Tuple[str, str]] = []
+    for where in out["hung"]:
+        problems.append(("C19:callback-does-not-return", f"{where} did not return"))
+    for cls, msg in out["loop_errors"]:
+        if cls not in ("KeyboardInterrupt", "SystemExit"):
+            problems.append((f"C19:exception-escapes-callback:{cls}", f"the event loop reported {cls}: {msg[:160]}"))
+    solo_admin = run_admin(spec, only=0, record=False)
+    import uuid as _uuid
+
+    acked = bool(spec["op"].startswith("remove") and solo_admin["per"][0]["responses"][:1]
+                 and solo_admin["per"][0]["responses"][0][0] == 200
+                 and not httpc.is_pairing_auth_error(solo_admin["per"][0]["responses"][0][1])
+                 and out["per"][0]["responses"][:1] == solo_admin["per"][0]["responses"][:1])
+    still_paired = set(solo_admin["pairings"]["paired_clients"])
+    ident = {"user": base.CANARY_USER_ID, "admin": base.CANARY_CTRL_ID, "admin2": base.CANARY_CTRL_ID}
+
+    def removed(role) -> bool:
+        """this connection's controller is no longer paired once the admin's (acknowledged) removal is done —
+        directly, or through the last-admin rule"""
+        return acked and role in ident and str(_uuid.UUID(ident[role].decode())) not in still_paired
+    for k, o in out["per"].items():
+        role = spec["conns"][k]["role"]
+        for where, cls in o["escaped"]:
+            problems.append((f"C19:exception-escapes-callback:{cls}", f"{cls} propagates out of {where} of connection {k} ({role})"))
+        if o["trailing"]:
+            problems.append(("C19:malformed-response", f"connection {k}: {o['trailing']}"))
+        if k == 0:
+            want = solo_admin["per"][0]
+            expect_closed = want["closed"]
+        elif removed(role):
+            want = run_admin(spec, only=k, x_pre_only=True, record=False)["per"][k]
+            # the one allowed effect: the removed controller's sessions are torn down; they keep what they had
+            # been sent when the removal arrived and get nothing more
+            want = dict(want, responses=want["responses_at_op"])
+            expect_closed = True
+        else:
+            want = run_admin(spec, only=k, record=False)["per"][k]
+            expect_closed = want["closed"]
+        if o["responses"] != want["responses"] or o["closed"] != expect_closed:
+            problems.append((
+                "C19:connection-affected-by-another-connection",
+                f"connection {k} ({role}, {spec['conns'][k].get('state', '-')}) got statuses {[s_ for s_, _ in o['responses']]} closed={o['closed']} "
+                f"around the admin's pairings {spec['op']}, expected {[s_ for s_, _ in want['responses']]} closed={expect_closed}"
+                + (" (its controller is no longer paired: the session must be closed)" if k != 0 and removed(role) else " (as for the same bytes alone)"),
+            ))
+        if o["closed"] and o["registered"]:
+            problems.append(("C19:closed-connection-still-registered", f"connection {k} closed but still registered"))
+        if o["registered_after_lost"]:
+            problems.append(("C19:closed-connection-still-registered", f"connection {k} still registered after connection_lost"))
+    if out["pairings"] != solo_admin["pairings"]:
+        problems.append(("C19:accessory-state-changed", "the pairing tables differ from what the admin's request alone produces"))
+    if out["finish_pair"] != solo_admin["finish_pair"]:
+        problems.append(("C19:accessory-state-changed",
+                         f"{out['finish_pair']} advertisement refreshes scheduled, the admin's request alone schedules {solo_admin['finish_pair']}"))
+    return problems
+
+
+def admin_specs(ctx: Ctx) -> List[Dict[str, Any]]:
+    rng = ctx.rng
+    deep = not ctx.quick
+    specs = []
+    op_body = {
+        "remove-user": httpc.pairings_remove(base.CANARY_USER_ID),
+        "remove-unknown": httpc.pairings_remove(b"0BADF00D-0000-4000-8000-000000000000"),
+        "add": httpc.pairings_add(b"ADDED000-0000-4000-8000-000000000001", bytes(range(100, 132)), False),
+        "list": httpc.pairings_list(),
+        "remove-last-admin": httpc.pairings_remove(base.CANARY_CTRL_ID),
+    }
+    for shape in (["async", "sync", "bridge"] if deep else ["async"]):
+        probe = base.World(True, shape)
+        try:
+            for op in ADMIN_OPS + ["remove-last-admin"]:
+                for state in X_STATES:
+                    variants = [(state, None)] + ([(state, rng.randrange(1, 60)) for _ in range(3)] if deep and state.startswith("mid") else [])
+                    for st_, cut in variants:
+                        pre, post = _x_script(probe, st_, cut)
+                        x = {"role": "user", "state": st_, "pre": [hx(c) for c in pre], "post": [hx(c) for c in post]}
+                        layouts = [[x]]
+                        if op == "remove-user" or deep:
+                            pre2, post2 = _x_script(probe, "idle")
+                            x2 = {"role": "user", "state": "idle", "pre": [hx(c) for c in pre2], "post": [hx(c) for c in post2]}
+                            layouts += [[x, x2], [x2, x]]
+                        for lay in layouts:
+                            others = list(lay) + [{"role": "unverified", "state": "bystander", "pre": [], "post": [hx(PROBE)]}]
+                            if deep:
+                                others.append({"role": "admin2", "state": "idle", "pre": [], "post": [hx(PROBE)]})
+                            specs.append({
+                                "kind": "admin", "shape": shape, "op": op,
+                                "op_request": hx(httpc.http_request(b"POST", b"/pairings", op_body[op])),
+                                "gated_wait": any(c.get("state", "").startswith(("response-pending", "pending")) for c in lay),
+                                "conns": [{"role": "admin", "state": "idle", "pre": [], "post": []}] + others,
+                                "label": f"admin pairings {op} while a session of the other controller is {st_}"
+                                         + (f" (+{len(lay) - 1} more session)" if len(lay) > 1 else ""),
+                            })
+        finally:
+            probe.close()
+    return specs
+
+
+def run_admin_cases(ctx: Ctx, lines, metas, obss):
+    st = ctx.stats
+    for spec in admin_specs(ctx):
+        if base.hung_budget_exhausted():
+            return
+        out = run_admin(spec)
+        probs = admin_problems(spec, out)
+        st.case(["admin", spec["shape"], spec["op"], [c.get("state") for c in spec["conns"]]], True)
+        st.hit("op", f"admin:{spec['op']}")
+        st.hit("outcome", "admin:PROBLEM" if probs else "admin:only-the-removed-controller's-sessions-closed")
+        if any(o["closed_by_op"] for k, o in out["per"].items() if k != 0):
+            st.hit("outcome", "admin:session-torn-down-by-removal")
+        if probs and not any(f.signature == probs[0][0] for f in ctx.failures):
+            ctx.fail(probs[0][0], "; ".join(d for _, d in probs[:4]) + f" [{spec['label']}]", spec)
+        for k, o in out["per"].items():
+            if k != 0 and o["closed_by_op"]:
+                continue  # closed from outside its own callbacks (the allowed teardown): not this connection's pump
+            role = spec["conns"][k]["role"]
+            verified = role != "unverified"
+            with_uuid = "user" if role == "user" else ("admin" if verified else False)
+            o2 = dict(o, closed=True)
+            lines.append(model_line(o2, verified, with_uuid))
+            metas.append({"label": f"{spec['label']} / connection {k} ({role})", "verified": verified, "with_uuid": with_uuid,
+                          "world": [True, spec["shape"]]})
+            obss.append(o2)
+
+
 # --------------------------------------------------------------------------- a delayed response is pending
 
 ENDINGS = ["peer-disconnect", "close()", "idle-sweep", "server-stop", "none"]
@@ -1228,7 +1498,7 @@ def run(ctx: Ctx, model: bool = True, n: Optional[int] = None, n_multi: Optional
         "chunking) fed to a fresh real HAPServerProtocol in a fresh world, unverified or as plaintext in a verified "
         "session. Non-trivial = the pump reached a dispatch, a protocol error or a close; distinct by (mode, bytes, chunking)."
     )
-    n = ctx.n(1600, 28000) if n is None else n
+    n = ctx.n(1200, 28000) if n is None else n
     lines, metas, obss = [], [], []
     order_budget = ctx.n(60, 1500)
     for (wa, verified, with_uuid, chunks, meta) in cases(ctx, n):
@@ -1275,6 +1545,7 @@ def run(ctx: Ctx, model: bool = True, n: Optional[int] = None, n_multi: Optional
         obss.append(obs)
     run_multi_cases(ctx, ctx.n(220, 4000) if n_multi is None else n_multi, lines, metas, obss)
     run_pending_cases(ctx)
+    run_admin_cases(ctx, lines, metas, obss)
     if not model:
         return
     answers = run_model_parallel("C19", lines)
@@ -1296,6 +1567,21 @@ def search(ctx: Ctx):
 
 
 def replay(ctx: Ctx, r):
+    if r.get("kind") == "admin":
+        out = run_admin(r)
+        probs = admin_problems(r, out)
+        print("scenario:", r["label"], "shape:", r["shape"])
+        for k, c in enumerate(r["conns"]):
+            o = out["per"][k]
+            print(f"  connection {k} ({c['role']}, {c.get('state')}): before the admin's request {[bytes.fromhex(x)[:60] for x in c['pre']]}; "
+                  f"responses {[s_ for s_, _ in o['responses']]} closed={o['closed']} registered={o['registered']}")
+        print("admin's request:", bytes.fromhex(r["op_request"])[:80])
+        if probs:
+            ctx.fail(probs[0][0], "; ".join(d for _, d in probs), r)
+        for f in ctx.failures:
+            print("FAILS:", f.signature, f.description)
+        print("verdict:", "property violated on this input" if ctx.failures else "holds on this input")
+        return 1 if ctx.failures else 0
     if r.get("kind") == "pending":
         o = run_pending(r)
         probs = pending_problems(r, o)
